@@ -119,7 +119,12 @@ def inject(prog, kind, rng, place, order, pos):
         base = rng.randint(200, 9900)
     u = rng.randint(0, 9999)
 
+    copyform = prog.get("use_core", True) and rng.random() < 0.3
+
     def msg(name, mid, signal=False):
+        if copyform and not signal:
+            # the copy form: the field list of another definition (here a struct of the core definitions)
+            return f"  {name}:\n    id: {mid}\n    fields: RTMA_MSG_HEADER"
         return f"  {name}:\n    id: {mid}\n    fields:" + (" null" if signal else "\n      q: int32")
 
     ea = eb = None
